@@ -299,6 +299,9 @@ impl Engine {
 
     /// Run committed regression replays (`replays/regress/<ID>_*.json`) through the same check.
     pub fn run_regressions<P: Prop + ?Sized>(&self, p: &P) {
+        if std::env::var("NVERIF_SKIP_REGRESS").is_ok() {
+            return;
+        }
         let dir = format!("{}/replays/regress", self.verif_dir);
         let mut files: Vec<String> = std::fs::read_dir(&dir)
             .map(|rd| {
